@@ -634,7 +634,7 @@ class _TRSTractList:
 
         def parse_key(k_):
             k_ = k_.lower()
-            mo = re.search(pat, k_)
+            mo = re.match(pat, k_)
             if not mo:
                 raise illegal_key_error
             if len(mo.group(0)) != len(k_):
